@@ -3,7 +3,9 @@
 //! usage: harness <property> [--seed N] [--tier quick|thorough] [--shard i/n] [--out FILE] [extra…]
 mod common;
 mod c13;
+mod c20;
 mod c01;
+mod c16;
 mod pkggen;
 
 use common::*;
@@ -19,7 +21,9 @@ pub fn eval_request(req: &str) -> String {
     let r = guarded(std::panic::AssertUnwindSafe(|| {
         None // one line per property module
             .or_else(|| c13::eval(op, a))
+            .or_else(|| c20::eval(op, a))
             .or_else(|| c01::eval(op, a))
+            .or_else(|| c16::eval(op, a))
     }));
     match r {
         Ok(Some(s)) => s,
@@ -71,7 +75,9 @@ fn main() {
             }
         }
         "C13" => c13::gen(&mut ctx),
+        "C20" => c20::gen(&mut ctx),
         "C01" => c01::gen(&mut ctx),
+        "C16" => c16::gen(&mut ctx),
         _ => { eprintln!("unknown property {}", prop); std::process::exit(2); }
     }
     ctx.out.flush().unwrap();
